@@ -8,6 +8,7 @@
   about the rows.
 -/
 import EpsModel.Lemmas.SchemaL2
+import EpsModel.Lemmas.SchemaPad
 import EpsModel.Lemmas.TopLevel
 namespace Eps.C18
 open Eps
@@ -93,6 +94,36 @@ theorem rows_in_stream (H : B → Nat) (T : Ty) (name : B) (v : Val) (hT : T.wf 
   have := rowsList_within (T.schemaTrees name v) 1 0 _ 0 (T.ser H name v).length hok.cover hok.tiled (Nat.le_refl _)
     (by rw [ser_length]; omega) r hr
   exact this.2
+
+/-- **Padding rows cover zero bytes**: every `PADDING` node of the recorded forest, at any depth,
+    lies inside the stream and the bytes of the stream in its range are all zero — for every type,
+    every well-typed value, every name and digest function. (Stated on the forest: a padding row is
+    a node with `isPad = true`; `Tree.padsZeroL` walks all nodes.) -/
+theorem padding_rows_zero (H : B → Nat) (T : Ty) (name : B) (v : Val) (hv : T.wt v = true) :
+    Tree.padsZeroL (T.ser H name v) 0 (T.schemaTrees name v) := by
+  have hroot := Ty.pads T v hv (37 + name.length)
+  have hl : (T.header H name).length = 37 + name.length := Ty.header_length H T name
+  simp only [Ty.schemaTrees, Tree.padsZeroL, and_true]
+  refine ⟨leaf_pads _ _ _ _ _, leaf_pads _ _ _ _ _, leaf_pads _ _ _ _ _, leaf_pads _ _ _ _ _, leaf_pads _ _ _ _ _,
+    leaf_pads _ _ _ _ _, ?_, ?_⟩
+  · simp [Tree.padsZero, Tree.padsZeroL]
+  · rw [treeW_pads]
+    unfold Ty.ser
+    simp only []
+    have := Tree.embedL_pre (T.enc v (T.header H name).length) (T.header H name) 0 (T.trees v (T.header H name).length)
+      (by rw [Nat.zero_add]; rw [hl]; exact hroot)
+    rw [hl] at this ⊢
+    exact this
+
+/-- the body-level statement: wherever the value is written -/
+theorem padding_rows_zero_body (T : Ty) (v : Val) (hv : T.wt v = true) (pos : Nat) :
+    Tree.padsZeroL (T.enc v pos) pos (T.trees v pos) := Ty.pads T v hv pos
+
+/-- Non-vacuity: a padding node really is constrained — the forest of `Vec<u32>` written at position 1
+    has a `PADDING` node of 3 bytes at offset 9. -/
+example : (Ty.vec (.prim (.int .u32))).trees (.seq [.bits 5]) 1 =
+    [.node 1 8 0 false [], .node 9 3 1 true [], .node 12 4 4 false []] := by
+  simp [Ty.trees, Ty.treesSeq, Ty.isZC, zeroTrees, padTrees, pad, Ty.maxSizeOf, Prim.size, IntK.size, Ty.toMemList, Ty.toMem, leBytes]
 
 /-- Non-vacuity: the forest of `Option<u8>::Some(7)` at position 0. -/
 example : (Ty.option (.prim (.int .u8))).trees (.variant 1 [.bits 7]) 0
